@@ -341,6 +341,12 @@ func (co *Conn) Read(p []byte) (n int, err error) {
 		return 0, err
 	}
 	if int(length) > len(p) {
+		// The length is off the stream: take the message off it as well, so
+		// that the next read starts at the next length and not in the middle
+		// of this message.
+		if _, err := io.CopyN(io.Discard, co.Conn, int64(length)); err != nil {
+			return 0, err
+		}
 		return 0, io.ErrShortBuffer
 	}
 
